@@ -240,19 +240,13 @@ class Oracle:
         yaml = self.yaml
         c = self.by[name]
         cls = self.model.classes[name]
-        if c['kind'] == 'enum':
-            try:
-                return cls[node.value]
-            except KeyError:
-                raise Reject('not a member')
-        if c['kind'] in ('str', 'userstring', 'yatimlstring'):
-            try:
-                return cls(node.value)
-            except Exception as e:  # noqa
-                raise Reject('string-like refused: ' + type(e).__name__)
         # savourise: the user's hooks, bases first, on a copy
         work = copy.deepcopy(node)
-        work.tag = '!' + name
+        scalar_kind = c['kind'] in ('enum', 'str', 'userstring', 'yatimlstring')
+        if not scalar_kind:
+            work.tag = '!' + name
+        elif c['kind'] == 'enum':
+            work.tag = CORE + 'str'
         for k in reversed(cls.__mro__):
             if '_yatiml_savorize' in vars(k):
                 try:
@@ -261,6 +255,18 @@ class Oracle:
                     work = wrapper.yaml_node
                 except Exception as e:  # noqa
                     raise Reject('savorize refused: ' + type(e).__name__)
+        if scalar_kind and not isinstance(work, yaml.ScalarNode):
+            raise Reject('not a scalar after savorize')
+        if c['kind'] == 'enum':
+            try:
+                return cls[work.value]
+            except KeyError:
+                raise Reject('not a member')
+        if scalar_kind:
+            try:
+                return cls(work.value)
+            except Exception as e:  # noqa
+                raise Reject('string-like refused: ' + type(e).__name__)
         if not isinstance(work, yaml.MappingNode):
             raise Reject('not a mapping after savorize')
         params = OrderedDict((p['name'], p) for p in c['params'])
